@@ -1601,6 +1601,12 @@ class Authenticated(BaseClientHandler):
             )
             return None
 
+        # The message sequence numbers in a non-UID COPY were chosen by the
+        # client before it has seen the pending EXPUNGEs. Like for FETCH,
+        # STORE and SEARCH the client has to collect those first.
+        #
+        if self.pending_expunges() and not cmd.uid_command:
+            raise No("There are pending EXPUNGEs.")
         await self.send_pending_notifications()
 
         # Wait until the mailbox gives us the go-ahead to run the command.
@@ -1664,6 +1670,11 @@ class Authenticated(BaseClientHandler):
         if self.examine:
             raise No("Mailbox is read-only")
 
+        # See do_copy(): sequence numbers sent before pending EXPUNGEs were
+        # seen would name other messages.
+        #
+        if self.pending_expunges() and not cmd.uid_command:
+            raise No("There are pending EXPUNGEs.")
         await self.send_pending_notifications()
 
         # Phase 1: Copy messages to the destination mailbox.
